@@ -237,6 +237,15 @@ def main(argv=None):
                     else:
                         still.append((it, r))
                 bad = still
+            if bad and len(bad) < len(new):
+                # some violations are confirmed, others were seen once and neither replay nor a second complete run
+                # shows them again (typically the same state leak surfacing under another key, depending on which
+                # worker process evaluated what): the confirmed ones are reported, the others are listed as unstable
+                unstable = {it[0] for it, _r in bad}
+                for (key, desc, path, _), (rc, out) in bad[:8]:
+                    print(f"UNSTABLE property={pid} seen once, not reproducible (not reported as a violation): {key}")
+                new = [it for it in new if it[0] not in unstable]
+                bad = []
             if bad:
                 for (key, desc, path, _), (rc, out) in bad[:5]:
                     print(f"HARNESS-ERROR property={pid} violation not reproducible from a fresh process: {key} rc={rc}\n{out}")
